@@ -3,7 +3,9 @@
 // send_packet} with ClientState, and Client::{connection_id, start_shutdown, try_send_packet, try_send_peer_gone,
 // try_send_health} — extracted verbatim.  (a) every sequential history of connects, closes, sends and disconnect requests up to
 // the bound is compared step by step with a reference registry that restates the property; (b) two-thread scenarios run under
-// the controlled scheduler (every schedule) and must be linearizable with respect to that reference.
+// the controlled scheduler (every schedule) and must be linearizable with respect to that reference.  (c) [property C08, run as
+// group relay_disconnect_bx] a disconnect request for a connection that has been admitted, in every interleaving with the
+// connection's registration.
 #![allow(dead_code, unused_imports, unused_variables, unused_macros, unused_mut)]
 macro_rules! trace { ($($t:tt)*) => { () }; }
 macro_rules! debug { ($($t:tt)*) => { () }; }
@@ -255,6 +257,7 @@ fn main() {
     let n = alphabet.len();
     let mut idx: Vec<usize> = vec![0];
     loop {
+        if max_len == 0 { break; }
         let seq: Vec<Op> = idx.iter().map(|i| alphabet[*i]).collect();
         // a connection id connects at most once (ids are unique per process)
         let mut seen = HashSet::new();
@@ -285,7 +288,7 @@ fn main() {
     }
     // ---- (b) two threads under the controlled scheduler: every schedule must end in a state some sequential order of the
     //      operations (respecting each thread's own order) leads to, with the same return values
-    if conc > 0 {
+    if conc == 1 {
         let setups: Vec<Vec<Op>> = vec![vec![Op::Connect(1, 1), Op::Connect(8, 80)], vec![Op::Connect(1, 1), Op::Connect(1, 2), Op::Connect(8, 80), Op::Send(1, 8)]];
         let pairs: Vec<(Vec<Op>, Vec<Op>)> = vec![
             (vec![Op::Connect(1, 3)], vec![Op::Close(1)]), (vec![Op::Connect(1, 3)], vec![Op::Send(8, 1)]), (vec![Op::Close(1)], vec![Op::Send(8, 1)]),
@@ -330,6 +333,53 @@ fn main() {
                         let nearest = outcomes.iter().map(|(m, _, _)| diff(m, &got)).find(|d| d.is_some()).flatten();
                         rep.fail("concurrent-operations-are-linearizable", "concurrent", &input, format!("the final state {:?} with return values {:?} / {:?} is not what any sequential order of the operations gives (e.g. {:?}); threads ran in the order {:?}", got, ra, rb, nearest, out.order));
                     }
+                }
+                if rep.only.is_some() { break; }
+                match sched::next_prefix(out.trace) { Some(p) => prefix = p, None => break }
+            }
+        } }
+    }
+    // ---- (c) C08: the embedder asks to disconnect a connection it admitted, while the connection is still on its way from
+    //      admission (access control said Allow, the disconnect guard exists) to registration
+    if conc == 2 {
+        #[derive(Debug, Clone, Copy, PartialEq)] enum Req { Conn, Endpoint }
+        for with_older in [false, true] { for req in [Req::Conn, Req::Endpoint] {
+            let base = format!("older-connection-registered={with_older} request={req:?}");
+            let mut prefix: Vec<usize> = vec![];
+            if let Some(o) = &rep.only { if !o.starts_with(&format!("{base} ")) { continue; } if let Some(p) = o.split("choices=").nth(1) { prefix = p.trim_matches(|c| c == '[' || c == ']').split(',').filter_map(|x| x.trim().parse().ok()).collect(); } }
+            loop {
+                let sys = Arc::new(Sys::new());
+                sys.apply(Op::Connect(8, 80));
+                if with_older { sys.apply(Op::Connect(1, 1)); }
+                let admitted = Arc::new(std::sync::atomic::AtomicBool::new(false));
+                let requested_after_admission: Arc<std::sync::Mutex<Option<(bool, Option<String>)>>> = Default::default();
+                let (sys1, adm1) = (sys.clone(), admitted.clone());
+                let (sys2, adm2, rq2) = (sys.clone(), admitted.clone(), requested_after_admission.clone());
+                let progs: Vec<Box<dyn FnOnce() + Send>> = vec![
+                    // the accept task: admission (the access policy allowed connection 5 of endpoint 1 and was told its id), the rest of the setup, registration
+                    Box::new(move || { sched::yield_point(false); adm1.store(true, std::sync::atomic::Ordering::SeqCst); sched::yield_point(false); sys1.apply(Op::Connect(1, 5)); }),
+                    // the embedder: asks to disconnect what it admitted
+                    Box::new(move || { sched::yield_point(false); let was = adm2.load(std::sync::atomic::Ordering::SeqCst);
+                                       let r = sys2.apply(match req { Req::Conn => Op::DisconnectConn(1, 5), Req::Endpoint => Op::DisconnectAll(1) }); *rq2.lock().unwrap() = Some((was, r)); }),
+                ];
+                let out = sched::run(progs, &prefix);
+                let choices: Vec<usize> = out.trace.iter().map(|x| x.1).collect();
+                let input = format!("{base} choices={:?}", choices);
+                rep.evaluations += 1; rep.nontrivial += 1;
+                if rep.evaluations % 5 == 1 { rep.sample(&input); }
+                if out.deadlock { rep.fail("never-deadlocks", "concurrent", &input, "no thread can proceed".into()); }
+                else if !out.panicked.is_empty() { rep.fail("never-panics", "concurrent", &input, format!("thread(s) {:?} panicked", out.panicked)); }
+                else {
+                    let got = sys.observe();
+                    let (was_admitted, ret) = requested_after_admission.lock().unwrap().clone().unwrap();
+                    let served = got.open.get(&1).is_some_and(|l| l.contains(&5)) && !got.shutdown_requested.contains(&5);
+                    if was_admitted && served {
+                        rep.fail("disconnect-of-an-admitted-connection-takes-effect", match req { Req::Conn => "by-connection-id", Req::Endpoint => "by-endpoint-id" }, &input,
+                                 format!("connection 5 of endpoint 1 had been admitted when the embedder asked to disconnect it (the request returned {:?}); it was registered afterwards and is being served: registry {:?}, shutdown requested for {:?}; threads ran in the order {:?}", ret, got.open, got.shutdown_requested, out.order));
+                    }
+                    // other endpoints are unaffected; with a request by connection id also the endpoint's other connection
+                    if got.shutdown_requested.contains(&80) || !got.open.get(&8).is_some_and(|l| l == &vec![80]) { rep.fail("other-connections-unaffected", "other-endpoint", &input, format!("the peer's connection was touched: registry {:?}, shutdown requested for {:?}", got.open, got.shutdown_requested)); }
+                    if with_older && req == Req::Conn && got.shutdown_requested.contains(&1) { rep.fail("other-connections-unaffected", "same-endpoint", &input, "the endpoint's older connection was asked to shut down although only connection 5 was named".into()); }
                 }
                 if rep.only.is_some() { break; }
                 match sched::next_prefix(out.trace) { Some(p) => prefix = p, None => break }
